@@ -324,3 +324,48 @@ Theorem C16_code_tie_GetCostOfName :
     (1 <= len -> gen_GetCostOfName (tld_cost t) len = GVal (listed_price len t, true)).
 Proof. intros len t. exact (conj (gen_GetCostOfName_model len t) (gen_GetCostOfName_price_list len t)). Qed.
 Print Assumptions C16_code_tie_GetCostOfName.
+
+(* keeper.RegisterRNSName, generated from the current source as a whole (reads: the parsed name's length and TLD,
+   the stored record, the height; effects: the two transfers, the record written, the primary pointer), does what
+   the model's cost, admission and expiry functions say, in the code's order: refusals before any effect, the
+   sender charged the price, the same amount passed on to the liquidity account, the record written with the
+   model's new expiry *)
+Theorem C16_code_tie_RegisterRNSName :
+  forall len t years h sender_ok whois owner ok_charge ok_pol primary has_primary,
+    gen_RegisterRNSName true (is_reserved t) (tld_cost t) len years h sender_ok
+      (w_found whois) (w_expires whois) (w_other whois owner) ok_charge true ok_pol primary has_primary
+    = register_events len t years h sender_ok whois owner ok_charge ok_pol primary has_primary.
+Proof. exact gen_RegisterRNSName_model. Qed.
+Print Assumptions C16_code_tie_RegisterRNSName.
+
+(* ... and the model's registration step is the interpretation of exactly those events over its bank and stores,
+   with the answers its bank gives to the two transfers *)
+Theorem C16_code_tie_model_step_interprets_the_events :
+  forall acc s op idx len t,
+    o_basic_ok op = true -> o_parse op = Some (idx, len, t) ->
+    let whois := aget N.eqb (s_names s) idx in
+    let owner := o_sender op in
+    let price := match cost_of_name len t with Some c => wrap64 (c * o_years op) | None => 0 end in
+    let e0 := match new_expiry whois owner (o_height op) (wrap64 (o_years op * blocks_per_year)) with Some e => e | None => 0 end in
+    let r := {| n_owner := owner; n_expires := e0; n_data := o_data op; n_locked := 0; n_subs := 0 |} in
+    register acc s op
+    = match register_events len t (o_years op) (o_height op) (o_sender_ok op) whois owner
+              (ok_charge_of acc s owner price) (ok_pol_of acc s owner price) (o_primary op) (has_primary_of s idx owner r) with
+      | GPanic => (Panic, s)
+      | GVal (_, false) => (Fail, s)
+      | GVal (evs, true) =>
+          match send (s_bank s) owner (a_mod acc) price with
+          | Some b1 =>
+              match send b1 (a_mod acc) (a_pol acc) price with
+              | Some b2 =>
+                  (Ok, {| s_names := aset N.eqb (s_names s) idx r;
+                          s_primary := if existsb (fun ev => match ev with Ev tag _ => String.eqb tag "set-primary" end) evs
+                                       then aset N.eqb (s_primary s) owner idx else s_primary s;
+                          s_bank := b2 |})
+              | None => (Fail, s)
+              end
+          | None => (Fail, s)
+          end
+      end.
+Proof. exact register_is_the_interpretation. Qed.
+Print Assumptions C16_code_tie_model_step_interprets_the_events.
